@@ -15,7 +15,8 @@ from shimgen import *
 os.environ.setdefault('LL2SMT_ENGINES', 'default,groebner,split,nlsat')
 
 P = Prop('C13', 'slerp/mix/lerp interpolate rotations at constant speed along the right arc')
-d = P.driver('c13', ['<glm/glm.hpp>', '<glm/gtc/quaternion.hpp>', '<glm/gtx/quaternion.hpp>', '<glm/gtx/dual_quaternion.hpp>'])
+d = P.driver('c13', ['<glm/glm.hpp>', '<glm/gtc/quaternion.hpp>', '<glm/gtx/quaternion.hpp>', '<glm/gtx/dual_quaternion.hpp>',
+                     '<glm/gtx/compatibility.hpp>', '<glm/gtx/rotate_vector.hpp>'])
 contracts = []
 fcontracts = []
 
@@ -60,6 +61,8 @@ UNIT = [('unit_x', 'norm2(%s) == 1' % X), ('unit_y', 'norm2(%s) == 1' % Y)]
 D = 'dot(%s, %s)' % (X, Y)                               # cosine of the angle between x and y
 ABS_D = 'If(%s < 0, -%s, %s)' % (D, D, D)                # |x.y|: cosine of the angle between x and the nearer of y, -y
 Z = '[If(%s < 0, -c, c) for c in %s]' % (D, Y)           # the nearer of y, -y (y itself when x.y == 0)
+# mix (oriented arc): the great arc from x to -x is not unique and the formula is 0/0 there
+NOT_ANTIPODAL = [('y_is_not_minus_x', '%s > -1' % D)]
 EPS = {'f32': 'R(1)/8388608', 'f64': 'R(1)/4503599627370496'}   # epsilon<T>(): 2^-23, 2^-52 (glm/ext/scalar_constants.hpp)
 # nearest float / double to pi (glm::pi<T>()), exact rationals
 PI = {'f32': 'R(13176795)/4194304', 'f64': 'R(884279719003555)/281474976710656'}
@@ -108,13 +111,13 @@ for tag in ('f32', 'f64'):
     A, B = '(1 - a)*%s' % TH, 'a*%s' % TH
     fn = 'glm_quat_mix_' + tag
     shim3(fn, 'glm::mix(%s, %s, a)' % (qx, qy))
-    R(fn, 'glm::mix(qua, qua, a)  ' + QC, requires=UNIT + addition(TH, A, B),
+    R(fn, 'glm::mix(qua, qua, a)  ' + QC, requires=UNIT + NOT_ANTIPODAL + addition(TH, A, B),
       ensures=[('linear_fallback_is_affine_blend', 'Implies(%s > %s, And(eqv(out, %s)))' % (D, THR, blend(X, Y)))] +
       arc_clauses('%s <= %s' % (D, THR), Y, TH, B, A))
     shim3(fn.replace('mix', 'mix_t0'), 'glm::mix(%s, %s, %s)' % (qx, qy, zero), ins=[])
     shim3(fn.replace('mix', 'mix_t1'), 'glm::mix(%s, %s, %s)' % (qx, qy, one), ins=[])
-    R(fn.replace('mix', 'mix_t0'), 'glm::mix(x, y, 0)  ' + QC, requires=UNIT, ensures=[('starts_at_x', 'And(eqv(out, %s))' % X)])
-    R(fn.replace('mix', 'mix_t1'), 'glm::mix(x, y, 1)  ' + QC, requires=UNIT, ensures=[('ends_at_y', 'And(eqv(out, %s))' % Y)])
+    R(fn.replace('mix', 'mix_t0'), 'glm::mix(x, y, 0)  ' + QC, requires=UNIT + NOT_ANTIPODAL, ensures=[('starts_at_x', 'And(eqv(out, %s))' % X)])
+    R(fn.replace('mix', 'mix_t1'), 'glm::mix(x, y, 1)  ' + QC, requires=UNIT + NOT_ANTIPODAL, ensures=[('ends_at_y', 'And(eqv(out, %s))' % Y)])
 
     # ------------------------------------------------------------------ slerp: shorter arc (y negated iff x.y < 0)
     TH = 'acos(%s)' % ABS_D
@@ -139,7 +142,7 @@ for tag in ('f32', 'f64'):
       ensures=[('equal_up_to_sign', 'Or(And(eqv(out, rev)), And(eqv(out, vneg(rev))))')])
 
     # ------------------------------------------------------------------ slerp with k extra spins: total angle theta + k*pi
-    PHI = '(%s + k*%s)' % (TH, PI[tag])
+    PHI = '(k*%s + %s)' % (PI[tag], TH)
     As, Bs = '%s - a*%s' % (TH, PHI), 'a*%s' % PHI
     fn = 'glm_quat_slerp_spin_' + tag
     shim3(fn, 'glm::slerp(%s, %s, a, k)' % (qx, qy), ins=[(T, 'a'), ('int32_t', 'k')])
@@ -155,7 +158,123 @@ for tag in ('f32', 'f64'):
     R(fn, 'glm::slerp(x, y, t, 0) vs glm::slerp(x, y, t)  ' + QC, requires=UNIT,
       ensures=[('zero_spins_is_plain_slerp', 'And(eqv(out, ref))')])
 
+    # ------------------------------------------------------------------ gtx shortMix: shorter arc, angle through atan2(sqrt(1 - c^2), c)
+    # |x.y| written so that it is syntactically the term the symbolic execution builds for fCos (the clamps a <= 0, a >= 1 return early);
+    # every clause that uses it is guarded by 0 < a < 1, where it IS |x.y|; the requires are identities for any value of the term
+    C_SM = 'If(And(a > 0, a < 1, %s < 0), -%s, %s)' % (D, D, D)
+    SN = 'sqrt(1 - %s*%s)' % (C_SM, C_SM)
+    TH2 = 'atan2(%s, %s)' % (SN, C_SM)
+    A2, B2 = '(1 - a)*%s' % TH2, 'a*%s' % TH2
+    ATAN2 = [('atan2_of_sine_and_cosine', 'Implies(%s*%s <= 1, And(cos(%s) == %s, sin(%s) == %s))' % (C_SM, C_SM, TH2, C_SM, TH2, SN))]
+    INSIDE = 'And(a > 0, a < 1, %s)'
+    fn = 'glm_quat_shortMix_' + tag
+    shim3(fn, 'glm::shortMix(%s, %s, a)' % (qx, qy))
+    R(fn, 'glm::shortMix(qua, qua, a)  ' + XQ, requires=UNIT + ATAN2 + addition(TH2, A2, B2),
+      ensures=[('at_0_is_x', 'Implies(a == 0, And(eqv(out, %s)))' % X),
+               ('at_1_is_y_or_minus_y', 'Implies(a == 1, Or(And(eqv(out, %s)), And(eqv(out, vneg(%s)))))' % (Y, Y)),
+               ('linear_fallback_is_affine_blend_towards_nearer_of_y_minus_y',
+                'Implies(%s, And(eqv(out, %s)))' % (INSIDE % ('%s > %s' % (ABS_D, THR)), blend(X, Z)))] +
+      arc_clauses(INSIDE % ('%s <= %s' % (ABS_D, THR)), Z, TH2, B2, A2))
+
+    # ------------------------------------------------------------------ gtx fastMix: normalised linear interpolation
+    BL = 'vadd(vscale(%s, a), vscale(%s, 1 - a))' % (Y, X)     # y*a + x*(1-a): the affine blend, summands in the order of the code's term
+    NZ = 'norm2(%s) > 0' % BL
+    fn = 'glm_quat_fastMix_' + tag
+    shim3(fn, 'glm::fastMix(%s, %s, a)' % (qx, qy))
+    R(fn, 'glm::fastMix(qua, qua, a)  ' + XQ, requires=UNIT,
+      ensures=[('unit_length', 'Implies(%s, norm2(out) == 1)' % NZ),
+               ('is_affine_blend_over_its_length', 'Implies(%s, And(eqv(vscale(out, sqrt(norm2(%s))), %s)))' % (NZ, BL, BL)),
+               ('at_0_is_x', 'Implies(a == 0, And(eqv(out, %s)))' % X),
+               ('at_1_is_y', 'Implies(a == 1, And(eqv(out, %s)))' % Y)])
+
+    # ------------------------------------------------------------------ gtx dual-quaternion lerp (DLB): blend of both parts towards
+    # the one of y, -y whose REAL part is nearer to the real part of x (same sign for both parts), not normalised
+    DT = 'glm::tdualquat<%s, glm::defaultp>' % T
+    dq_ins = q_ins(tag, 'xr') + q_ins(tag, 'xd') + q_ins(tag, 'yr') + q_ins(tag, 'yd') + [(T, 'a')]
+    XR, XD, YR, YD = q_expr('xr'), q_expr('xd'), q_expr('yr'), q_expr('yd')
+    DR = 'dot(%s, %s)' % (XR, YR)
+    ZR, ZD = '[If(%s < 0, -c, c) for c in %s]' % (DR, YR), '[If(%s < 0, -c, c) for c in %s]' % (DR, YD)
+    fn = 'glm_dualquat_lerp_' + tag
+    d.shim(fn, 'void', dq_ins, 'auto r = glm::lerp(%s(%s, %s), %s(%s, %s), a); %s %s' % (
+        DT, q_make(tag, 'xr'), q_make(tag, 'xd'), DT, q_make(tag, 'yr'), q_make(tag, 'yd'), q_store('r.real'), q_store('r.dual', base=4)),
+        outs=[(T, 'out', 8)])
+    R(fn, 'glm::lerp(tdualquat, tdualquat, a)  ' + DQ, requires=[('a_in_0_1', 'And(a >= 0, a <= 1)')],
+      ensures=[('real_part_is_affine_blend_towards_nearer_of_y_minus_y', 'And(eqv(out[0:4], %s))' % blend(XR, ZR)),
+               ('dual_part_is_affine_blend_with_the_same_sign', 'And(eqv(out[4:8], %s))' % blend(XD, ZD)),
+               ('at_0_is_x', 'Implies(a == 0, And(eqv(out, %s + %s)))' % (XR, XD)),
+               ('at_1_is_y_or_minus_y', 'Implies(a == 1, Or(And(eqv(out, %s + %s)), And(eqv(out, vneg(%s + %s)))))' % (YR, YD, YR, YD))])
+
+    # ------------------------------------------------------------------ gtx/compatibility lerp (scalar, vec2..4): x*(1-a) + y*a
+    for L in (1, 2, 3, 4):
+        fn = 'glm_compat_lerp_v%d_%s' % (L, tag)
+        ui, vi = vec_ins(L, tag, 'u'), vec_ins(L, tag, 'v')
+        U, V = '[%s]' % ', '.join(n for _, n in ui), '[%s]' % ', '.join(n for _, n in vi)
+        if L == 1:
+            d.shim(fn, 'void', ui + vi + [(T, 'a')], 'out[0] = glm::lerp(u0, v0, a);', outs=[(T, 'out', 1)])
+        else:
+            d.shim(fn, 'void', ui + vi + [(T, 'a')], 'auto r = glm::lerp(%s, %s, a); %s' % (vec_make(L, tag, 'u'), vec_make(L, tag, 'v'), vec_store(L, 'r')),
+                   outs=[(T, 'out', L)])
+        R(fn, 'glm::lerp(%s, a)  glm/gtx/compatibility.hpp' % ('T, T' if L == 1 else 'vec%d, vec%d' % (L, L)),
+          ensures=[('is_affine_blend', 'And(eqv(out, %s))' % blend(U, V))])
+
+    # ------------------------------------------------------------------ gtx/rotate_vector slerp(vec3, vec3, a): no fallback, no negation
+    ui, vi = vec_ins(3, tag, 'u'), vec_ins(3, tag, 'v')
+    U, V = '[u0, u1, u2]', '[v0, v1, v2]'
+    DV = 'dot(%s, %s)' % (U, V)
+    TH3 = 'acos(%s)' % DV
+    A3, B3 = '(1 - a)*%s' % TH3, 'a*%s' % TH3
+    # domain: unit vectors, not antiparallel (the great arc from u to -u is not unique).  PARALLEL and identical vectors are in the
+    # domain: the interpolation between u and u is u.  Same rules as quaternion mix: exact arc point up to the threshold
+    # 1 - epsilon<T>(), affine blend above it.
+    VREQ = [('unit_u', 'norm2(%s) == 1' % U), ('unit_v', 'norm2(%s) == 1' % V), ('not_antiparallel', '%s > -1' % DV)]
+    VTRIG = '%s <= %s' % (DV, THR)
+    fn = 'glm_vec3_slerp_' + tag
+    d.shim(fn, 'void', ui + vi + [(T, 'a')], 'auto r = glm::slerp(%s, %s, a); %s' % (vec_make(3, tag, 'u'), vec_make(3, tag, 'v'), vec_store(3, 'r')),
+           outs=[(T, 'out', 3)])
+    R(fn, 'glm::slerp(vec3, vec3, a)  glm/gtx/rotate_vector.inl', requires=VREQ + addition(TH3, A3, B3),
+      ensures=[('identical_vectors_give_that_vector', 'Implies(And(eqv(%s, %s)), And(eqv(out, %s)))' % (U, V, U)),
+               ('nearly_parallel_is_affine_blend', 'Implies(%s > %s, And(eqv(out, %s)))' % (DV, THR, blend(U, V))),
+               ('unit_length', 'Implies(%s, norm2(out) == 1)' % VTRIG),
+               ('angle_from_x_is_t_times_theta', 'Implies(%s, dot(%s, out) == cos(%s))' % (VTRIG, U, B3)),
+               ('angle_to_y_is_one_minus_t_times_theta', 'Implies(%s, dot(%s, out) == cos(%s))' % (VTRIG, V, A3)),
+               ('in_plane_of_x_and_y', 'Implies(%s, And(minors3(%s, %s, out)))' % (VTRIG, U, V))])
+    for tv, nm, end in ((zero, 't0', U), (one, 't1', V)):
+        d.shim('glm_vec3_slerp_%s_%s' % (nm, tag), 'void', ui + vi, 'auto r = glm::slerp(%s, %s, %s); %s' % (
+            vec_make(3, tag, 'u'), vec_make(3, tag, 'v'), tv, vec_store(3, 'r')), outs=[(T, 'out', 3)])
+        R('glm_vec3_slerp_%s_%s' % (nm, tag), 'glm::slerp(vec3 x, vec3 y, %s)  glm/gtx/rotate_vector.inl' % nm[1], requires=VREQ,
+          ensures=[('is_end_point', 'And(eqv(out, %s))' % end)])
+
+    # ------------------------------------------------------------------ kind F (bitwise, every float pattern incl. NaN/Inf)
+    W = 32 if tag == 'f32' else 64
+    SAME = 'cspec_same%d' % W
+    lit = (lambda v: v + 'f') if tag == 'f32' else (lambda v: v)
+    ONE = lit('1.0')
+    EPSC = '0x1p-23f' if tag == 'f32' else '0x1p-52'
+    MUL = lambda p, q, W=W: 'SPEC_FMUL%d(%s, %s)' % (W, p, q)      # float product (kind F: commutative uninterpreted function, see uf_float)
+    # dot(qua, qua) = (w.w + x.x) + (y.y + z.z): glm/detail/type_quat.inl
+    DOTF = '((%s + %s) + (%s + %s))' % (MUL('xw', 'yw'), MUL('xx', 'yx'), MUL('xy', 'yy'), MUL('xz', 'yz'))
+    ABSF = '(%s < 0 ? -%s : %s)' % (DOTF, DOTF, DOTF)
+    OMA = '(%s - a)' % ONE
+
+    def fsum(xt, yt, order):
+        """x-term + y-term; float addition is commutative, the operand order only follows the order clang happens to emit so that the
+        SAT solver sees two structurally identical adders (any other order is the same clause, just slower to prove)"""
+        return '%s + %s' % ((xt, yt) if order == 'xy' else (yt, xt))
+    F('glm_quat_lerp_' + tag, 'glm::lerp(qua, qua, a)  ' + QC,
+      [('is_x_times_one_minus_a_plus_y_times_a_bitwise', ' && '.join(
+          '%s(out[%d], %s)' % (SAME, i, fsum(MUL(OMA, 'x' + c), MUL('y' + c, 'a'), 'yx')) for i, c in enumerate('wxyz')))])
+    for f2 in ('slerp', 'mix'):
+        zc = (lambda c: '(%s < 0 ? -y%s : y%s)' % (DOTF, c, c)) if f2 == 'slerp' else (lambda c: 'y' + c)
+        cnd = ABSF if f2 == 'slerp' else DOTF
+        F('glm_quat_%s_%s' % (f2, tag), 'glm::%s(qua, qua, a)  %s' % (f2, QC),
+          [('above_threshold_is_blend_%s_bitwise' % ('towards_y_negated_iff_float_dot_negative' if f2 == 'slerp' else 'of_x_and_y'),
+            '!(%s > %s - %s) || (%s)' % (cnd, ONE, EPSC, ' && '.join(
+                '%s(out[%d], %s)' % (SAME, i, fsum(MUL(OMA, 'x' + c), MUL(zc(c), 'a'), 'xy' if f2 == 'slerp' else 'yx')) for i, c in enumerate('wxyz'))))])
+
 flat = P.build(d, 'flat', defines=['GLM_ENABLE_EXPERIMENTAL'])
+flatF = P.build(d, 'flat', defines=['GLM_ENABLE_EXPERIMENTAL'], tag='c13_flat_bits')   # same IR; separate tag: results are keyed by (function, build)
 for fn, real, kw in contracts:
     kw.setdefault('timeout', 300)
     P.contract(fn, real, kind='R', **kw)
+for fn, real, ens, kw in fcontracts:
+    P.contract(fn, real, ensures=ens, build=flatF, unwind=2, backends=('sat',), timeout=600, uf_float=('fmul', 'fdiv'), **kw)
